@@ -163,6 +163,32 @@ func checkEvictionShortfall(c *Ctx, rule string) {
 					}
 				}
 			}
+			if !cmp {
+				// the comparison may be the evictor's own verdict: it returns `evicted >= wanted` (or ==) as a bool, and
+				// the caller tests that bool
+				inside := false
+				for _, r := range returnsOf(ev) {
+					if len(r.Results) == 0 {
+						continue
+					}
+					if bo, ok := r.Results[0].(*ssa.BinOp); ok {
+						switch bo.Op {
+						case token.GEQ, token.EQL, token.LEQ:
+							for _, pair := range [][2]ssa.Value{{bo.X, bo.Y}, {bo.Y, bo.X}} {
+								if valueDerivesFrom(pair[1], want, 0) && !valueDerivesFrom(pair[0], want, 0) {
+									if _, isC := pair[0].(*ssa.Const); !isC {
+										inside = true
+									}
+								}
+							}
+						}
+					}
+				}
+				if inside {
+					okE, failE, untested := GuardEdges(F, []ssa.CallInstruction{cs}, BoolTrue)
+					cmp = len(untested) == 0 && len(okE)+len(failE) > 0
+				}
+			}
 			c.Check(cmp, rule, construct, p.InstrPos(cs),
 				"the number evicted/selected is compared with the number wanted",
 				"the evictor is asked for "+shortVal(wantArg)+" item(s) but its result is never compared with that number (at most with zero): when fewer queued messages exist than are needed, the call stores all its messages anyway — the queue ends above max_depth and fewer messages are dropped than stored")
@@ -209,6 +235,14 @@ func checkEvictionSingleRow(c *Ctx, rule string, evictors map[*ssa.Function]stri
 			}
 		}
 		if counted {
+			if !seenStmt[t.Stmt] {
+				seenStmt[t.Stmt] = true
+				nStmt++ // a counted evictor: how many rows it removed is its callers' business (shortfall obligation)
+				lim := strings.Contains(strings.ToLower(t.Stmt.St.raw), "limit")
+				c.Check(lim, rule, msql.Key(t.Stmt)+":a counted eviction removes at most the number asked for", t.Pos,
+					"DELETE bounded by a LIMIT (the callers compare the number removed with the number wanted, C12.R5)",
+					"the counted evictor's DELETE carries no LIMIT: it can remove more queued messages than the call accounts for")
+			}
 			continue
 		}
 		seenStmt[t.Stmt] = true
@@ -229,5 +263,5 @@ func checkEvictionSingleRow(c *Ctx, rule string, evictors map[*ssa.Function]stri
 			"DELETE keyed by a single id (id = (SELECT … LIMIT 1))",
 			"the one-at-a-time evictor's DELETE is not keyed by a single id (WHERE "+strings.Join(conj, " AND ")+"): one counted eviction can remove several queued messages — e.g. every message of a batch, which share one received_at")
 	}
-	c.Floor(rule, "one-at-a-time eviction statements", nStmt, 1)
+	c.Floor(rule, "eviction statements", nStmt, 1)
 }
